@@ -369,9 +369,10 @@ package scanner
 //@     && imp(s.curIndex <= s.dataSize, stackOK(s.step, s.stepStack) && scanOK(s, s.step, s.curIndex))
 
 //@ func NewJApiScanner(file)
-//@   property C12,C01
+//@   property C12,C01,C09
 //@   requires file != nil
 //@   ensures scannerInv(result) && fresh(result) && result.file == file && result.gRet == 0 && result.curIndex == 0
+//@   ensures[C09,@included-file-starts-fresh] result.step == stateRoot && len(result.stepStack) == 0 && len(result.finds) == 0 && len(result.stack) == 0
 
 //@ func (*Scanner).shiftFound(s)
 //@   property C12,C01
